@@ -598,6 +598,8 @@ def start_only_in_initiators(ctx):
     for fname, fn in sorted(m.funcs.items()):
         if not fn.unit.endswith('co_ssdo.c'):
             continue
+        if m.is_new_helper(fname) and m.callers.get(fname):
+            continue          # a helper extracted from a known function: its calls are attributed to its callers (closure below)
         for f2 in m.helper_closure(fname):
             for x in walk(m.funcs[f2].body):
                 if x.k == 'call' and callee_name(x) in ('COObjRdBufStart', 'COObjWrBufStart'):
